@@ -17,6 +17,12 @@ def gen(n, types=("plane", "sphere", "capsule", "ellipsoid", "cylinder", "box", 
   return {"Gen_CollisionFamily.tla": mod, "Gen_CollisionFamily.cfg": cfg}
 
 
+def gen_enum(types=("plane", "sphere", "capsule", "ellipsoid", "cylinder", "box", "mesh")):
+  mod = "---- MODULE Enum_CollisionFamily ----\nEXTENDS CollisionFamily\nGTypes == {" + ", ".join('"%s"' % t for t in types) + "}\n====\n"
+  cfg = "CONSTANTS\n  Types <- GTypes\n  Mode = \"enum\"\n  NCase = 1\nSPECIFICATION Spec\nINVARIANT Ordered\nINVARIANT MixSymmetric\nINVARIANT EmitCase\nCHECK_DEADLOCK FALSE\n"
+  return {"Enum_CollisionFamily.tla": mod, "Enum_CollisionFamily.cfg": cfg}
+
+
 def _chunk(args):
   import mujoco
   import warp as wp
@@ -130,6 +136,11 @@ def run(ctx: core.Ctx):
   n = 320 if ctx.quick else 5000
   r = ctx.tlc("Gen_CollisionFamily", "Gen_CollisionFamily.cfg", gen=gen(n), workers=1, simulate="num=1", depth=n + 1, seed=ctx.seed % (1 << 30), timeout=900)
   cases = r.emit("case")
+  # every type pair x pose class once (TLC enumerates them), each with several geometries (engulfed poses: more, a third of them is ill-conditioned)
+  r2 = ctx.tlc("Enum_CollisionFamily", "Enum_CollisionFamily.cfg", gen=gen_enum(), workers=1, timeout=900)
+  for e in r2.emit("case"):
+    for rep in range((4 if e["c"]["pose"] == "engulfed" else 2) * (1 if ctx.quick else 6)):
+      cases.append(dict(e, c=dict(e["c"], rep=rep)))
   CH = max(1, len(cases) // 42 + 1)
   ncon = 0
   for res, chunk in zip(core.pmap(_chunk, [(cases[i : i + CH], ctx.seed) for i in range(0, len(cases), CH)], nproc=14), [cases[i : i + CH] for i in range(0, len(cases), CH)]):
